@@ -5,16 +5,24 @@ Property theorems only, over the transition system `TdModel.Rpc` (`Model/C24.lea
 concurrent calls, `ForceClose` / `Close` / cancellation at every point relative to send, ack,
 result and retry timer.
 -/
-import TdModel.Lemmas.C26Rank
-import TdModel.Gen.C26
+import TdModel.Lemmas.C26Started
+import TdModel.Model.C26Cfg
 
 namespace TdModel.C26
 open TdModel.Rpc
 
-def cfg (maxRetries interval : Nat) : Cfg :=
-  { guard := Facts.C26.guardPresent, recheck := Facts.C26.recheckPresent, maxRetries := maxRetries, interval := interval }
+/-! `C26.cfg maxRetries interval` (`Model/C26Cfg.lean`) is the engine as it is in the source. -/
 
-theorem guard_in_source : Facts.C26.guardPresent = true := by decide
+theorem source_understood : raw.understood = true := by decide
+
+/-- **The source has the shape the theorems are about** (`Cfg.std`): in particular both blocking
+`select`s have the close-context case, the loop's close branch prefers a concurrent ack and `Do`'s
+close branch a concurrent result (`done`), the cancel branch issues the drop request only if the
+request was sent, and `NotifyAcks` processes the whole batch. -/
+theorem source_shape (mr iv : Nat) : (cfg mr iv).std = true := by
+  rw [cfg, Cfg.ofRaw_std]; decide
+
+theorem guard_in_source {mr iv : Nat} : (cfg mr iv).std = true := source_shape mr iv
 
 /-- `ForceClose` = `reqCancel(ErrEngineClosed)` then `Close()`. -/
 theorem force_close_in_source : Facts.C26.forceCloseCancelsWithErrEngineClosed = true := by decide
@@ -40,26 +48,26 @@ theorem forceClose_unblocks (mr iv : Nat) {s : State} (hr : Reachable (cfg mr iv
         a.ofNotif nid = true ∧ (step (cfg mr iv) s a).isSome = true) := by
   have hi := reachable_inv (cfg := cfg mr iv) guard_in_source hr
   have hcl := reachable_close (cfg := cfg mr iv) guard_in_source hr
-  have hg : (cfg mr iv).guard = true := guard_in_source
+  have hstd := Cfg.std_all (source_shape mr iv)
   cases hpc : c.pc with
-  | send0 => exact Or.inl ⟨.sret i .ok, by simp [Action.ofCall], by simp [step, stepSret, hc, hpc]⟩
+  | send0 => exact Or.inl ⟨.sret i .ok, by simp, by simp [step, stepSret, hc, hpc]⟩
   | sendR =>
-    refine Or.inl ⟨.sret i .ok, by simp [Action.ofCall], ?_⟩
+    refine Or.inl ⟨.sret i .ok, by simp, ?_⟩
     simp only [step, stepSret, hc, hpc]
     split <;> simp
   | loop =>
-    refine Or.inl ⟨.loopSel i .closed, by simp [Action.ofCall], ?_⟩
-    simp only [step, stepLoop, hc, hpc, hclosed]
+    refine Or.inl ⟨.loopSel i .closed, by simp, ?_⟩
+    simp only [step, stepLoop, hc, hpc, hclosed, hstd]
     cases c.acked <;> simp
   | wait =>
-    refine Or.inl ⟨.waitSel i .closed, by simp [Action.ofCall], ?_⟩
-    simp only [step, stepWait, hc, hpc, hclosed]
+    refine Or.inl ⟨.waitSel i .closed, by simp, ?_⟩
+    simp only [step, stepWait, hc, hpc, hclosed, hstd]
     cases c.done <;> simp
-  | drop => exact Or.inl ⟨.dret i .ok, by simp [Action.ofCall], by simp [step, stepDret, hc, hpc]⟩
+  | drop => exact Or.inl ⟨.dret i .ok, by simp, by simp [step, stepDret, hc, hpc]⟩
   | fin => exact absurd hret ((hi.fin_ret i c hc).2 hpc)
   | guard =>
     cases hd : c.done with
-    | true => exact Or.inl ⟨.gpass i, by simp [Action.ofCall], by simp [step, stepGpass, hc, hpc, hd]⟩
+    | true => exact Or.inl ⟨.gpass i, by simp, by simp [step, stepGpass, hc, hpc, hd]⟩
     | false =>
       have hgo := hcl.guard_owner i c hc hpc
       cases ho : c.owner with
@@ -71,10 +79,10 @@ theorem forceClose_unblocks (mr iv : Nat) {s : State} (hr : Reachable (cfg mr iv
           obtain ⟨n, hn, hst, hfn⟩ := hcl.owner_staged i c nid hc ho hd
           refine Or.inr ⟨rfl, nid, n, ?_⟩
           rcases hst with hst | hst
-          · refine ⟨.nrun nid, rfl, hn, by simp [Action.ofNotif], ?_⟩
+          · refine ⟨.nrun nid, rfl, hn, by simp, ?_⟩
             simp only [step, stepNrun, hn, hst, hfn, hc]
             split <;> simp
-          · exact ⟨.nwrite nid .ok, rfl, hn, by simp [Action.ofNotif], by simp [step, stepNwrite, hn, hst, hfn, hc]⟩
+          · exact ⟨.nwrite nid .ok, rfl, hn, by simp, by simp [step, stepNwrite, hn, hst, hfn, hc]⟩
 
 /-- **… and returns after boundedly many own steps.**  Every step of a call's own thread strictly
 decreases its rank (`≤ 10`), every step of a notifier strictly decreases the notifier's rank (`≤ 3`),
@@ -85,7 +93,7 @@ theorem own_steps_bounded (mr iv : Nat) {s s' : State} {a : Action} (hs : step (
       c.rank ≤ 10 ∧ (a.isAdvance = false → c'.rank ≤ c.rank) ∧ (a.ofCall i = true → c'.rank < c.rank)) ∧
     (∀ k n n', s.notifs k = some n → s'.notifs k = some n' →
       n.rank ≤ 3 ∧ n'.rank ≤ n.rank ∧ (a.ofNotif k = true → n'.rank < n.rank)) := by
-  obtain ⟨h1, h2⟩ := rank_step hs
+  obtain ⟨h1, h2⟩ := rank_step (cfg := cfg mr iv) guard_in_source hs
   refine ⟨fun i c c' hc hc' => ⟨?_, h1 i c c' hc hc'⟩, fun k n n' hn hn' => ⟨?_, h2 k n n' hn hn'⟩⟩
   · unfold Call.rank; split <;> split <;> omega
   · unfold Notif.rank; split <;> omega
@@ -97,6 +105,62 @@ theorem rank_zero_returned (mr iv : Nat) {s : State} (hr : Reachable (cfg mr iv)
   apply (hi.fin_ret i c hc).2
   unfold Call.rank at h0
   split at h0 <;> first | assumption | omega
+
+/-- **Close is final and admits no new calls.**  Once the engine is closed it stays closed (and the
+close-context stays cancelled after `ForceClose`), and a `Do` started on a closed engine returns
+`ErrEngineClosed` at once without registering anything: the set of calls `Close` waits for can only shrink. -/
+theorem closed_is_final (mr iv : Nat) {s s' : State} (hr : Reachable (cfg mr iv) s) {a : Action}
+    (hs : step (cfg mr iv) s a = some s') :
+    (s.closed = true → s'.closed = true) ∧ (s.reqC = true → s'.reqC = true) ∧
+    (s.closed = true → ∀ i q b, a = .start i q b →
+      ∃ c, s'.calls i = some c ∧ c.ret = some .closedRetry ∧ c.sends = 0 ∧ s'.rpc = s.rpc ∧ s'.ack = s.ack) := by
+  obtain ⟨_, h2, h3⟩ := listed_step (cfg := cfg mr iv) guard_in_source (reachable_listed guard_in_source hr) hs
+  refine ⟨h2, h3, fun hc i q b ha => ?_⟩
+  subst ha
+  simp only [step, stepStart] at hs
+  split at hs
+  · simp at hs
+  · try dsimp only at hs
+    simp only [hc, if_true, Option.some.injEq] at hs
+    subst hs
+    refine ⟨{ newCall q b s.now with owner := some .caller, pc := .fin, sends := 0, ret := some .closedRetry },
+      ?_, rfl, rfl, rfl, rfl⟩
+    simp [setCall]
+
+/-- **`Close` / `ForceClose` return exactly when every `Do` has returned.**  The `wg.Wait()` of a close
+invocation can return iff it is waiting and every call of the state has returned; in particular when
+it returns no `Do` is pending. -/
+theorem close_returns_iff_all_returned (mr iv : Nat) {s : State} (hr : Reachable (cfg mr iv) s) (k : Nat) :
+    (step (cfg mr iv) s (.cret k)).isSome = true ↔
+      (k ∈ s.closers ∧ ∀ i c, s.calls i = some c → c.ret ≠ none) := by
+  have hl := reachable_listed (cfg := cfg mr iv) guard_in_source hr
+  simp only [step]
+  constructor
+  · intro h
+    split at h
+    · next hcond =>
+      simp only [Bool.and_eq_true, List.contains_eq_mem, decide_eq_true_eq, List.all_eq_true] at hcond
+      refine ⟨hcond.1, fun i c hc => ?_⟩
+      have := hcond.2 i (hl i (by simp [hc]))
+      simp [hc] at this
+      intro hn; simp [hn] at this
+    · simp at h
+  · intro ⟨hk, hall⟩
+    have : (s.closers.contains k && s.started.all (fun i => match s.calls i with
+        | some c => c.ret.isSome
+        | none => true)) = true := by
+      simp only [Bool.and_eq_true, List.contains_eq_mem, decide_eq_true_eq, List.all_eq_true]
+      refine ⟨hk, fun i _ => ?_⟩
+      cases hc : s.calls i with
+      | none => rfl
+      | some c =>
+        have := hall i c hc
+        cases hr' : c.ret with
+        | none => exact absurd hr' this
+        | some r => simp [hr']
+    split
+    · rfl
+    · next hn => exact absurd this hn
 
 /-- **Retryability by acknowledgement.**  A call fails with the retryable engine-closed error
 (`errors.Is(err, ErrEngineClosed)`) only if its request was never acknowledged; a call whose own
@@ -130,10 +194,10 @@ theorem drop_iff_sent (mr iv : Nat) {s : State} (hr : Reachable (cfg mr iv) s)
 /-- Non-vacuity: force close after the ack gives the non-retryable error, before it the retryable one;
 a cancelled, sent call issues one drop request. -/
 example : ∃ s, Reachable (cfg 2 3) s ∧ ∃ c, s.calls 1 = some c ∧ c.ret = some .closedNoRetry ∧ c.acked = true :=
-  ⟨_, ⟨[.start 1 1 7, .sret 1 .ok, .ack [1], .loopSel 1 .ack, .fclose, .waitSel 1 .closed], rfl⟩, _, rfl, by decide, by decide⟩
+  ⟨_, ⟨[.start 1 1 7, .sret 1 .ok, .ack [1], .loopSel 1 .ack, .fclose 0, .waitSel 1 .closed], rfl⟩, _, rfl, by decide, by decide⟩
 
 example : ∃ s, Reachable (cfg 2 3) s ∧ ∃ c, s.calls 1 = some c ∧ c.ret = some .closedRetry ∧ c.acked = false :=
-  ⟨_, ⟨[.start 1 1 7, .sret 1 .ok, .fclose, .loopSel 1 .closed], rfl⟩, _, rfl, by decide, by decide⟩
+  ⟨_, ⟨[.start 1 1 7, .sret 1 .ok, .fclose 0, .loopSel 1 .closed], rfl⟩, _, rfl, by decide, by decide⟩
 
 example : ∃ s, Reachable (cfg 2 3) s ∧ ∃ c, s.calls 1 = some c ∧ c.ret = some .ctxErr ∧ c.drops = 1 ∧ c.sent = true :=
   ⟨_, ⟨[.start 1 1 7, .sret 1 .ok, .cancel 1, .loopSel 1 .ctx, .waitSel 1 .ctx, .dret 1 .ok], rfl⟩, _, rfl,
